@@ -45,6 +45,9 @@ def allowed(site, setters):
     if site["function"] == "Array" and site["where"].startswith("vector/backends/awkward_constructors.py") and text.startswith("x.behavior = "):
         return ("vector.Array: `x` ranges over the columns returned by _check_names(akarray, ...), each created by subscripting the ak.Array `akarray[name]`, "
                 "which yields a new high-level ak.Array object per field; rebinding its .behavior attribute does not write the operand (call sites / construction checked below)")
+    if site["function"].endswith("awkward_transform.__call__.transformer") and text.startswith("options.pop('broadcast_parameters_rule'"):
+        return ("ak.transform callback: `options` is the per-call options dict that awkward's broadcasting machinery builds and hands to the callback "
+                "(library-internal state of that one call, never an operand or a caller-visible object)")
     if fn == "__array_ufunc__" and text.startswith("output["):
         return "NumPy ufunc protocol: fills the arrays the caller passed explicitly as out= (writing them is what the caller asked for)"
     if kind == "out-keyword" and fn == "sum":
@@ -149,6 +152,53 @@ def dtype_probe(F):
     F.check("C16", "probe/array-constructor-keeps-caller-dtype-names", dt.names == ("px", "py", "pz"), dict(after=dt.names))
 
 
+def nonfinite_probe_worker(job):
+    """bounded: operands holding NaN, +-inf and -0.0 are bit-for-bit unchanged by every unary operation and reduction (NumPy, Awkward)"""
+    import numpy as np
+    import vector
+    from .. import arrays as AR
+    try:
+        import awkward as ak
+    except Exception:
+        ak = None
+    system, mom = job
+    F = E.Fails()
+    names = AR.names_of(system)
+    d = len(system) + 1
+    key = (lambda n: AR.MOM.get(n, n)) if mom else (lambda n: n)
+    special = [float("nan"), float("inf"), float("-inf"), -0.0, 1.5]
+    cols = {key(n): np.array(special[i % 5:] + special[:i % 5]) for i, n in enumerate(names)}
+    tag = f"[{','.join(system)}|{'mom' if mom else 'gen'}]"
+    ops_ = E.unary_ops(d, mom) + [("numpy.sum", lambda v: np.sum(v)), (".sum(axis=0)", lambda v: v.sum(axis=0)), (".sum(keepdims)", lambda v: v.sum(axis=0, keepdims=True)),
+                                  ("numpy.count_nonzero", lambda v: np.count_nonzero(v))]
+    arr = vector.array({k: c.copy() for k, c in cols.items()})
+    for name, f in ops_:
+        before = (arr.tobytes(), arr.dtype, arr.shape, type(arr))
+        try:
+            with np.errstate(all="ignore"):
+                f(arr)
+        except Exception:
+            pass
+        F.check("C16", f"probe/nonfinite-operand-unchanged/{name}{tag}|numpy", (arr.tobytes(), arr.dtype, arr.shape, type(arr)) == before)
+        if arr.tobytes() != before[0]:
+            arr = vector.array({k: c.copy() for k, c in cols.items()})
+    if ak is not None:
+        k_arr = vector.Array(ak.Array({k: c.copy() for k, c in cols.items()}))
+        ops_k = E.unary_ops(d, mom) + [("ak.sum", lambda v: ak.sum(v, axis=0)), ("ak.count_nonzero", lambda v: ak.count_nonzero(v, axis=0))]
+        snap = lambda a: tuple((fld, ak.to_numpy(a[fld]).tobytes()) for fld in ak.fields(a)) + (str(ak.type(a)),)
+        for name, f in ops_k:
+            if name.startswith("numpy."):
+                continue
+            before = snap(k_arr)
+            try:
+                with np.errstate(all="ignore"):
+                    f(k_arr)
+            except Exception:
+                pass
+            F.check("C16", f"probe/nonfinite-operand-unchanged/{name}{tag}|awkward", snap(k_arr) == before)
+    return F.n, F.bad
+
+
 def main(argv):
     report = C.Report("C16")
     t0 = time.time()
@@ -175,6 +225,10 @@ def main(argv):
         F.n += n_
         F.bad += bad_
     dtype_probe(F)
+    from .. import arrays as AR
+    for n_, bad_ in C.pool_map(nonfinite_probe_worker, [(s_, m_) for s_ in AR.systems() for m_ in (False, True)]):
+        F.n += n_
+        F.bad += bad_
     n_obj = F.n - n_static
     # bounded: NumPy / Awkward operand snapshots over the Engine D lattice
     u, b = E.lattice(C.tier(), C.seed())
